@@ -567,6 +567,14 @@ def run(ck):
         f = server_case(rng)
         if f:
             ck.oracle_fail({'server': True}, f)
+    # a client that sends many complete messages and is gone before the server looks (any limit on what is taken per round
+    # must not lose the rest)
+    for leave in (3, 129, 200, 700):
+        ck.evaluations += 1
+        ck.count('server_client_leaves:%d' % leave)
+        f = server_case(rng, leave=leave)
+        if f:
+            ck.oracle_fail({'server': True, 'leave': leave}, f)
     # bursts at the sizes where buffered reading changes behaviour, from a peer that stays connected
     sizes_list = [[1, 2, 3], [512, 512], [1023, 1], [1024], [1025], [2048, 1], [4096], [8192, 3], [1024, 1024, 5]]
     if ck.tier != 'quick':
